@@ -44,6 +44,11 @@ def gen(chk):
             add(s, st)
         add(s, [], ["--quiet"]); add(s, ["1"], ["--debug=sighash,signing"]); add(s, [], [], {"DEBUG_SIGHASH": "1", "DEBUG_SEGWIT": "0"})
         add(s, [], [], z=True); add(s, [], f="-MINIMALDATA,-DISCOURAGE_UPGRADABLE_NOPS"); add(s, [], f="+CLEANSTACK,-MINIMALIF")
+    # the re-enabled arithmetic under -z: divisions and remainders by every form of zero, overflowing products and shifts - an error, never a trap
+    for s in ["[OP_7 OP_0 OP_MOD]", "[OP_7 OP_0 OP_DIV]", "[7 0x80 OP_MOD]", "[7 0x00 OP_DIV]", "[OP_7 OP_1 OP_1SUB OP_MOD]", "[OP_7 OP_1 OP_1 OP_SUB OP_DIV]",
+              "[0xffffffff7f 0xffffffff7f OP_MUL]", "[OP_1 64 OP_LSHIFT]", "[OP_1 -1 OP_RSHIFT]", "[0x0000008080 -1 OP_DIV]", "[0x01 0x02 OP_CAT 3 OP_LEFT]",
+              "[0xaabbcc OP_2 OP_LEFT]", "[0xaabbcc OP_2 OP_RIGHT]", "[0xaabbcc 1 1 OP_SUBSTR]"]:
+        add(s, [], [], z=True); add(s, [], [], z=True, f="-MINIMALDATA"); add(s, ["0x00"], ["--quiet"], z=True); add(s, [], [])
     n = 250 if chk.tier == "quick" else 4000
     for _ in range(n):
         scr = G.rand_script(rng, rng.choice([2, 4, 8, 16, 30]), allow_ext=rng.random() < 0.3)
